@@ -919,6 +919,12 @@ fn main() {
                 if !d.attrs.trim().is_empty() {
                     if let Ok(a) = syn::parse::Parser::parse_str(syn::Attribute::parse_outer, &d.attrs) { f.attrs = a; fn_attrs_done = true; }
                 }
+                if d.opts.iter().any(|o| o == "contract-only") {
+                    f.block = Box::new(syn::parse_quote!({ unimplemented!() }));
+                    f.attrs.push(syn::parse_quote!(#[verifier::external_body]));
+                    fn_attrs_done = true;
+                    n.rules.push(norm::RuleApp { rule: "TRUSTED".into(), line: sp.0, note: "contract-only: body dropped, contract assumed".into() });
+                }
                 if let Some(l) = &d.lift {
                     let want_helper = d.opts.iter().any(|o| o == "lifted");
                     match lift_closure(&mut f, l, want_helper) {
@@ -984,6 +990,13 @@ fn main() {
                     sub.visit_impl_item_fn_mut(&mut f);
                 }
                 if d.opts.iter().any(|o| o == "private") { f.vis = syn::Visibility::Inherited; }
+                if d.opts.iter().any(|o| o == "contract-only") {
+                    // the signature is /repo's, the body is NOT verified: the side-car contract is an assumption (listed in the report)
+                    f.block = syn::parse_quote!({ unimplemented!() });
+                    f.attrs.push(syn::parse_quote!(#[verifier::external_body]));
+                    fn_attrs_done = true;
+                    n.rules.push(norm::RuleApp { rule: "TRUSTED".into(), line: sp.0, note: "contract-only: body dropped, contract assumed".into() });
+                }
                 if d.opts.iter().any(|o| o == "flatten") {
                     let mut fl = FlattenPaths(0);
                     fl.visit_signature_mut(&mut f.sig); fl.visit_block_mut(&mut f.block);
